@@ -497,6 +497,8 @@ pub const SIGS: &[Sig] = &[
     sig!("format_time", [K(Num), K(TimeFmt)], R::K(TimeStr)),
     sig!("parse_time", [K(TimeStr), K(TimeFmt)], R::K(Num)),
     sig!("parse_time_with_zone", [K(TimeStr), K(TimeFmt)], R::K(Num)),
+    // the clock (impure: only checks that judge no value use it - C05)
+    sig!("now", [], R::K(Num)),
     // type group
     sig!("as_array", [K(Arr)], R::Arg0),
     sig!("as_boolean", [K(Bool)], R::K(Bool)),
@@ -1135,7 +1137,7 @@ impl<'a> Gen<'a> {
 pub fn check_table() -> Vec<String> {
     let mut errs = Vec::new();
     for d in FTAB {
-        if IMPURE.contains(&d.name) {
+        if IMPURE.contains(&d.name) && d.name != "now" {
             continue;
         }
         let ss = sigs_of(d.name);
